@@ -822,6 +822,16 @@ class StmtMixin:
                         else:
                             outs.append(o)
             if exit_st is not None:
+                # locals first bound by a leading plain assignment of the body are bound after the loop when it ran at least once
+                if not self.feasible(exit_st, (i == i0).t):
+                    for stmt_ in s.body:
+                        if isinstance(stmt_, ast.Assign) and len(stmt_.targets) == 1 and isinstance(stmt_.targets[0], ast.Name):
+                            nm_ = stmt_.targets[0].id
+                            so_ = self.target.locals.get(nm_)
+                            if nm_ not in exit_st.env and so_ is not None:
+                                exit_st.env[nm_] = self.fresh(so_, nm_, exit_st)
+                        elif not isinstance(stmt_, ast.Expr):
+                            break
                 if ls.prefix and seqv is not None:
                     exit_st.assume(z3.SubSeq(seqv.t, 0, i.t) == seqv.t)
                 exit_st.meta["loop%d_exit_index" % ordn] = i
